@@ -5,15 +5,11 @@ enabled in EVERY state of `Model/Engine.lean`; all theorems below quantify over 
 of every schedule, i.e. over every cancellation point: before the first probe, between any two
 probes, with results or errors queued, with full buffers, during the exit delay.
 
--- ======================================================================================
--- PACKET SIDE: the lemmas about the packet pipeline (sender / receiver / merge stages) are
--- written separately in `SxVerif/Proofs/ConcPacket*.lean` (names like
--- `packet_no_panic_under_cancel`, `packet_cancel_returns`).  Import them HERE and add the
--- corresponding `theorem C12_packet_* := …` appeals at the marked place at the end of this file.
--- import SxVerif.Proofs.ConcPacket
--- ======================================================================================
+The packet side (sender / receiver / generator workers / merge stages) is the transition system of C07
+(`Model/Pipe.lean`, `Proofs/ConcPacket*.lean`); its two cancellation theorems are at the end of this file.
 -/
 import SxVerif.Proofs.EngineC12
+import SxVerif.Props.C07
 import SxVerif.Generated.StagesEngine
 import SxVerif.Generated.Constants
 import SxVerif.Generated.Problems
@@ -127,9 +123,25 @@ def exView (s : Sys) : MainPc × Bool × List Nat × List Nat × Nat × Bool :=
 
 example : (exec exCfg (init exReqs []) exSched).map exView = some (.returned, false, [], [1], 1, true) := by rfl
 
--- ======================================================================================
--- PACKET SIDE theorems go here (see the header): e.g.
--- theorem C12_packet_no_panic … := Proofs.ConcPacket.packet_no_panic_under_cancel …
--- ======================================================================================
+/-! ### packet side (packet scans: generator workers, multiplexers, sender, receiver, error merge)
+
+The transition system is `Pipe.step` (Model/Pipe.lean) over the configuration read off the regenerated
+stage descriptors (`C07.cfg`); its `cancel` step is enabled in every state, so `Reachable` ranges over every
+cancellation point. -/
+
+/-- packet pipeline: no send on a closed channel and no double close, whenever the cancellation comes -/
+theorem C12_packet_no_panic (inp : Pipe.Input) (s : Pipe.Sys) (h : Pipe.Reachable C07.cfg inp s) :
+    s.panic = false :=
+  C07.C07_no_panic inp s h
+
+/-- packet pipeline: once cancelled, the error stream `startScanEngine` is draining comes to an end within
+    8 steps of the error-merge goroutines alone (every blocking operation on that path is ctx-guarded), so
+    the scan call's error drain — and with it the scan call — is not held up by the sender, the receiver or
+    the generator workers -/
+theorem C12_packet_errc_closes (inp : Pipe.Input) (s : Pipe.Sys) (h : Pipe.Reachable C07.cfg inp s)
+    (hc : s.ctx = true) :
+    ∃ evs s', evs.length ≤ 8 ∧ (∀ e ∈ evs, Pipe.isReturnEv e = true) ∧ Pipe.run C07.cfg inp s evs = some s' ∧
+      s'.merr.closed = true :=
+  C07.C07_errc_closes_after_cancel inp s h hc
 
 end SxVerif.C12
